@@ -494,7 +494,7 @@ fn validator_cfg(b: &Base, supply: &Option<Option<String>>, default_parser: bool
         footer,
         assertion: b.ia.clone(),
         expected: vec![],
-        validators: vec![VSpec { claim: Claim::Custom("k".into(), json!(1)), behave: VBehave::Accept, reg: VReg::ValidateClaim, second: false }],
+        validators: vec![VSpec { claim: Claim::Custom("k".into(), json!(1)), behave: VBehave::Accept, reg: VReg::ValidateClaim, second: false, odd: 0 }],
         default_parser,
         ..Default::default()
     }
@@ -684,6 +684,55 @@ pub fn run(tier: &str, seed: u64) -> Report {
         }
     });
     total.merge(r);
+    // LARGE tokens (beyond any size threshold that switches the MAC / hash to a windowed or chunked path): alterations in
+    // the TAIL of the body - the last 300 bytes before the tag / signature, the tag / signature itself - and at 200 random
+    // positions; plus the footer.  A windowed hash that drops its remainder authenticates everything but the tail.
+    let big_sizes: Vec<usize> = if thorough { vec![4200, 5000, 8300, 9000, 16_500, 70_000] } else { vec![5000, 9000, 70_000] };
+    let mut bitems: Vec<(P, usize, Layer)> = Vec::new();
+    for &p in &ALL {
+        if p == P::V3P && !thorough {
+            continue; // 1.8 ms per verification
+        }
+        for &n in &big_sizes {
+            bitems.push((p, n, Layer::Core));
+            if n == 9000 {
+                bitems.push((p, n, Layer::Generic));
+            }
+        }
+    }
+    let rb = parallel(bitems.len(), util::threads(), |i, r| {
+        let (p, n, layer) = bitems[i];
+        let mut rng = Rng::new(seed, "c03-big", (i as u64) << 8 | p as u64);
+        let key = pools.key(p, i % pools.count(p));
+        // JSON whose LAST member sits in the tail, so that a flipped tail still parses at the upper layers
+        let msg = format!("{{\"pad\":\"{}\",\"exp\":\"2999-01-01T00:00:00+00:00\",\"role\":\"user\"}}", "p".repeat(n));
+        let b = match make_base(p, &key, &msg, Some("ftr"), if p.has_assertion() { Some("ia") } else { None }, &mut rng) {
+            Some(b) => b,
+            None => {
+                r.inconclusive.push(format!("could not build a large base token for {}", p.name()));
+                return;
+            }
+        };
+        let pt = match parts(p, &b.token) {
+            Some(x) => x,
+            None => return,
+        };
+        let len = pt.payload.len();
+        let body_end = len - p.trailer_len();
+        let mut positions: Vec<usize> = (body_end.saturating_sub(300)..len).collect();
+        for _ in 0..200 {
+            positions.push(rng.below(len));
+        }
+        for (k, &pos) in positions.iter().enumerate() {
+            let mut pl = pt.payload.clone();
+            pl[pos] ^= 1 << (k % 8);
+            let m = Mutant { token: assemble(&pt.header, &pl, pt.footer_b64), op: "bitflip-in-large-token".into(), region: region_of(p, len, pos).into(), supply_footer: None };
+            eval(&b, layer, &m, r);
+        }
+        r.count("large-token alterations evaluated");
+    });
+    total.merge(rb);
+    total.require("large-token alterations evaluated", 15);
     for &p in &ALL {
         for l in LAYERS {
             total.require(&format!("{}/{} rejected-at-crypto", p.name(), l.name()), 200);
@@ -710,4 +759,4 @@ pub fn replay(case: &Value) -> Report {
 /// 900 bytes -> 1200 base64 characters: room for truncations by 256, 512, 768 and 1024 characters
 const LONG_FOOTER: &str = "{\"kid\":\"0123456789abcdefghijklmnopqrstuvwxyzABCDEFGHIJKLMNOPQRSTUVWXYZ0123456789abcdefghijklmnopqrstuvwxyzABCDEFGHIJKLMNOPQRSTUVWXYZ0123456789abcdefghijklmnopqrstuvwxyzABCDEFGHIJKLMNOPQRSTUVWXYZ0123456789abcdefghijklmnopqrstuvwxyzABCDEFGHIJKLMNOPQRSTUVWXYZ0123456789abcdefghijklmnopqrstuvwxyzABCDEFGHIJKLMNOPQRSTUVWXYZ0123456789abcdefghijklmnopqrstuvwxyzABCDEFGHIJKLMNOPQRSTUVWXYZ0123456789abcdefghijklmnopqrstuvwxyzABCDEFGHIJKLMNOPQRSTUVWXYZ0123456789abcdefghijklmnopqrstuvwxyzABCDEFGHIJKLMNOPQRSTUVWXYZ0123456789abcdefghijklmnopqrstuvwxyzABCDEFGHIJKLMNOPQRSTUVWXYZ0123456789abcdefghijklmnopqrstuvwxyzABCDEFGHIJKLMNOPQRSTUVWXYZ0123456789abcdefghijklmnopqrstuvwxyzABCDEFGHIJKLMNOPQRSTUVWXYZ0123456789abcdefghijklmnopqrstuvwxyzABCDEFGHIJKLMNOPQRSTUVWXYZ0123456789abcdefghijklmnopqrstuvwxyzABCDEFGHIJKLMNOPQRSTUVWXYZ0123456789abcdefghijklmnopqrstuvwxyzABCDEFGHIJKLMNOPQRSTUVWXYZ0123456789abcdefghijklmnopqrstuvwxyzABCDEFGHIJKLMNOPQRSTUVWXYZ0123456789\"}";
 
-pub const RULE: &str = "per protocol, authentic base tokens (6 quick / 50 thorough: empty, 1-byte, 20-byte, JSON messages; footer and assertion present/absent) are built with the real library and self-checked; mutants: ALL single-bit flips of the decoded payload, ALL single-character substitutions of the token text over the 64 alphabet characters plus '= + / . space é', every proper prefix, suffix extensions (short, and long ones of 4..65536 characters incl. exact multiples of 256 on the token and on a 1200-character footer segment, with matching long truncations), byte deletion/insertion at the nonce/ciphertext/tag and message/signature boundaries, every position of the payload/footer dot, splices of two authentic tokens, footer swaps (with original and with matching expectation), non-canonical base64 (trailing bits, padding, standard alphabet), ECDSA s/r negation, Ed25519 S+L, seeded random multi-byte edits (thorough: double bit flips in the tag/signature), footer bytes replaced by invalid UTF-8 sequences (incl. every U+FFFD of a footer that contains it); a sample of the mutants is presented a second and a third time (a rejection must stay a rejection). Each mutant is presented to the core entry point (full sweep) and, for JSON bases, to GenericParser and PasetoParser::default() carrying a logging validator. Verdict per call: Ok with other content, Ok outside the two tolerated classes, a UTF-8/JSON/claim error, a validator log entry, a keystream hook event during a rejected call, or a panic is a violation. distinct_nontrivial = distinct (protocol, layer, operator, region) tuples whose mutant passed segment/header/base64 checks and was rejected by the cryptographic check";
+pub const RULE: &str = "per protocol, authentic base tokens (6 quick / 50 thorough: empty, 1-byte, 20-byte, JSON messages; footer and assertion present/absent) are built with the real library and self-checked; mutants: ALL single-bit flips of the decoded payload, ALL single-character substitutions of the token text over the 64 alphabet characters plus '= + / . space é', every proper prefix, suffix extensions (short, and long ones of 4..65536 characters incl. exact multiples of 256 on the token and on a 1200-character footer segment, with matching long truncations), byte deletion/insertion at the nonce/ciphertext/tag and message/signature boundaries, every position of the payload/footer dot, splices of two authentic tokens, footer swaps (with original and with matching expectation), non-canonical base64 (trailing bits, padding, standard alphabet), ECDSA s/r negation, Ed25519 S+L, seeded random multi-byte edits (thorough: double bit flips in the tag/signature), footer bytes replaced by invalid UTF-8 sequences (incl. every U+FFFD of a footer that contains it); a sample of the mutants is presented a second and a third time (a rejection must stay a rejection). Plus LARGE tokens (5 000, 9 000, 70 000-byte messages; thorough six sizes) with bit flips in the last 300 bytes of the body, in the tag / signature and at 200 random positions. Each mutant is presented to the core entry point (full sweep) and, for JSON bases, to GenericParser and PasetoParser::default() carrying a logging validator. Verdict per call: Ok with other content, Ok outside the two tolerated classes, a UTF-8/JSON/claim error, a validator log entry, a keystream hook event during a rejected call, or a panic is a violation. distinct_nontrivial = distinct (protocol, layer, operator, region) tuples whose mutant passed segment/header/base64 checks and was rejected by the cryptographic check";
